@@ -291,7 +291,7 @@ PROPS["C11"] = {
                   "prediction is compared with the real network",
     "level_note": "loops <= 3 (4); sparse identity-like integer weights; multiply for loops <= 2; overwrite with several sources means the last source (what the statement admits)",
     "rule": "one case = one (placement, loops, inskips, outskips, accumulation) per data seed; all distinct; non-trivial = all",
-    "mc": [flow_mc("fb", ["{1, 2, 3, 4, 5}", 1, 1, 3, "{1, 2}", "FALSE"], ["{1, 2, 3, 4, 5}", 1, 1, 4, "{1, 2, 3}", "FALSE"])],
+    "mc": [flow_mc("fb", ["{1, 2, 3, 4, 5, 6, 7}", 1, 1, 3, "{1, 2}", "FALSE"], ["{1, 2, 3, 4, 5, 6, 7}", 1, 1, 4, "{1, 2, 3}", "FALSE"])],
     "assumptions": FLOW_ASSUME,
 }
 
@@ -425,3 +425,8 @@ NET_TRACE = {"group": "net", "trace_module": "Trace_Net", "tlc_timeout": 1500}
 for _p in ("C02", "C08", "C16", "C17", "C01"):
     PROPS[_p].setdefault("record", []).append(NET_TRACE)
     PROPS[_p]["technique"] += " + TLC validation of recorded builder/forward/backward sessions of random larger networks (Trace_Net)"
+
+# C01, "feedback blocks without internal skips": gradients of the unrolled network (theorem checked by TLC), one and two blocks
+FB_GRAD = flow_mc("fb", ["{1, 2, 5, 6, 7}", 1, 1, 2, "{1, 2}", "TRUE"], ["{1, 2, 3, 4, 5, 6, 7}", 1, 1, 3, "{1, 2, 3}", "TRUE"])
+FB_GRAD["require"] = {"feedback_gradient_cases": 20}
+PROPS["C01"]["mc"].append(FB_GRAD)
